@@ -181,6 +181,19 @@ CLAIMED = {
          "and liveness; Verus would need its permission/atomic-invariant types in code that does not use them, Kani has no threads, "
          "neither decides liveness (DESIGN §3/C16). What Worker::run / Acceptor::run do with the message is not under contract."),
    design="§3/C16"),
+ "C17": dict(
+   text=("Partial claim — a sliver: the renaming device that 'equivalence up to generic parameter names' rests on. Verus discharges, on the "
+         "real text of rustdoc_ir's UnassignedIdGenerator::{new, id} (generics_equivalence.rs), that names are mapped to ordinals stably "
+         "and injectively: a known name keeps its ordinal and nothing changes; a new name gets the next ordinal and every other name "
+         "keeps its own; no two names ever share an ordinal — so two names get the same ordinal exactly when they are the same name "
+         "(lemma), for any sequence of calls (representation invariant preserved by every call)."),
+   note=("NOT decided — and this is almost all of C17: every law the statement lists (template binding keeps reference mutability, "
+         "equivalence reflexive / symmetric / transitive and blind to nothing but lifetimes and generic names, canonicalisation idempotent, "
+         "render/parse lossless) is about the recursive functions of type_.rs (is_a_template_for, bind_generic_type_parameters, "
+         "is_equivalent_to, _canonicalize), which recurse through `.iter().zip().all(|..| self.…)` closures and iterator chains over an "
+         "enum recursive through Vec<Type>: Verus rejects that text, Kani did not converge on one concrete shape pair (DESIGN §3/C17). "
+         "How is_equivalent_to pairs the two generators' ordinals is not under contract. ahash::HashMap<&str, usize> is a stand-in."),
+   design="§3/C17"),
  "C19": dict(
    text=("Partial claim — the builder-API -> schema half. Verus discharges, on the real text of all 17 registration methods of "
          "Blueprint, of RoutingModifiers (prefix/domain/nest/routes), of every Registered* modifier (error_handler, lifecycle, "
